@@ -423,7 +423,7 @@ class _Server(object):
         return {b"http://allmydata.org/tahoe/protocols/storage/v1": {b"maximum-immutable-share-size": 2 ** 40 if self.sid != b"small" else 10}}
 
     def __hash__(self):
-        return hash(self.sid)
+        return 17 + len(self.sid) + self.sid[0]      # plain int (builtin hash() may be symbolic under CrossHair)
 
     def __eq__(self, o):
         return self is o
